@@ -534,6 +534,10 @@ class PE:
                 v = Top(f"constant {m.name}.{name}: {e}")
         elif name in m.imports:
             v = self.import_ref(m.imports[name])
+        elif name == "__name__":
+            v = m.name
+        elif name == "__file__":
+            v = str(m.path)
         else:
             v = self.builtin(name)
         g[name] = v
@@ -820,6 +824,8 @@ class PE:
             raise PERaise("AttributeError", f"module {base.name} has no attribute {attr}")
         if isinstance(base, ExtRef):
             return ExtRef(f"{base.qname}.{attr}")
+        if type(base).__name__ == "_Logger":
+            return ExtRef("logging.noop")
         if isinstance(base, Obj):
             return self.obj_getattr(base, attr)
         if isinstance(base, ClassRef):
